@@ -53,3 +53,39 @@ def make_case(rng, cid, enc, nsteps=1, tracemode=0, io=None):
     ioflag = io if io is not None else (0 if rng.chance(1, 12) else 1)
     return step_line(cid, st, mem=sorted(mem.items()), fill=fill, nsteps=nsteps, inputs=inputs,
                      tracemode=tracemode, io=ioflag, reti=rng.below(2), retn=rng.below(2))
+
+
+def patch_state(line, **kv):
+    """set named state fields (FIELDS names, IFF1 IFF2 IM HALT) in a step line."""
+    t = line.split()
+    base = 5
+    names = pipeline.FIELDS[:22]
+    for k, v in kv.items():
+        if k in names:
+            t[base + names.index(k)] = str(v)
+        else:
+            t[base + 26 + ["IFF1", "IFF2", "IM", "HALT"].index(k)] = str(v)
+    return " ".join(t)
+
+
+def with_irq(line, kind, data, at=0):
+    """add one scheduled interrupt request (kind 0 = NMI, 1 = maskable) before step `at`."""
+    t = line.split()
+    pos = 5 + 26 + 7
+    n = int(t[pos])
+    # skip existing entries
+    p = pos + 1
+    for _ in range(n):
+        nd = int(t[p + 2])
+        p += 3 + nd
+    t[pos] = str(n + 1)
+    t[p:p] = [str(at), str(kind), str(len(data))] + [str(x) for x in data]
+    return " ".join(t)
+
+
+def set_steps(line, n, tracemode=None):
+    t = line.split()
+    t[3] = str(n)
+    if tracemode is not None:
+        t[4] = str(tracemode)
+    return " ".join(t)
